@@ -70,6 +70,20 @@ def gen(rng, knobs):
             if rng.random() < 0.2:
                 # target arriving after its deletion
                 h.add(h.regular(author=a))
+    for _ in range(rng.choice([0, 0, 1, 2])):
+        # a deletion that arrives BEFORE the event it names: somebody else's deletion must not keep that event
+        # out (nor hide it) when it arrives later
+        b = rng.choice(h.authors)
+        a = rng.choice(h.authors)
+        t = h.regular(author=b, created_at=histgen.T0 - rng.choice([30, 300]))
+        d = h.deletion(author=a, targets=[t["id"]] + ([histgen.hexid(rng)] if rng.random() < 0.3 else []),
+                       created_at=histgen.T0 - rng.choice([1, 5, 400]))
+        h.add(d)
+        if rng.random() < 0.4:
+            h.add(h.regular())
+        h.add(t)
+        h.ops.append(["get", t["id"]])
+        h.ops.append(["query", [{"ids": [t["id"]]}]])
     return {"backend": backend, "ops": h.ops}
 
 
@@ -94,6 +108,7 @@ def check(obs, backend):
     viol = []
     nontrivial = False
     deleted_must = {}      # id -> deletion brief: must never be served again
+    accepted_deletions = []
     for o in obs:
         kind = o["op"][0]
         if kind == "add" and "post" in o:
@@ -101,6 +116,15 @@ def check(obs, backend):
             pre, post = o["pre"], o["post"]
             removed = set(pre) - set(post)
             if E["kind"] != 5:
+                # named by an earlier accepted deletion of ANOTHER author and arriving only now: it is stored
+                foreign = [d for d in accepted_deletions if d["pubkey"] != E["pubkey"] and any(
+                    t[0] == "e" and len(t) > 1 and isinstance(t[1], str) and t[1].lower() == E["id"] for t in d["tags"])]
+                own = [d for d in accepted_deletions if d["pubkey"] == E["pubkey"] and any(
+                    t[0] == "e" and len(t) > 1 and isinstance(t[1], str) and t[1].lower() == E["id"] for t in d["tags"])]
+                if foreign and not own and E["id"] not in pre and E["id"] not in post and not model.is_ephemeral(E["kind"]) \
+                        and not model.address(E):
+                    viol.append({"cls": "kept-out-by-foreign-deletion", "sig": "kept-out-by-foreign-deletion|" + backend,
+                                 "detail": {"E": oracles.brief(E), "res": o["res"], "deletion": oracles.brief(foreign[0])}})
                 continue
             classes = sorted({refclass(pre, E, t) for t in E["tags"] if t and t[0] == "e"})
             base = "%s|refs=%s" % (backend, "+".join(classes))
@@ -110,6 +134,7 @@ def check(obs, backend):
                                  "detail": {"E": oracles.brief(E), "res": o["res"],
                                             "removed": [oracles.brief(pre[i]) for i in removed]}})
                 continue
+            accepted_deletions.append(E)
             must, may = oracles.deletion_sets(pre, E)
             if must or may:
                 nontrivial = True
